@@ -132,6 +132,10 @@ pub fn lines_strategy() -> impl Strategy<Value = InputCase> {
             "@&(1)&(1)mix{}", "#&(1)&(1)pan{}", "@&(1)?&(2)x{}", "@&(~1)+dough{}", "@+&(1)dough{}", ">> [mode]: steps\nAdd @+&salt{} now.", ">> [mode]: steps\n@salt{} @+&salt{1%g} #+&pan{}", "~-rest{5%min}", "~+a bit", "~&t{1%min}",
             "@flour{1/0 kg}", "@flour{2 1/0 cups}", "~rest{1/0 min}", "@sugar{1-3/0 tbsp}", "@a{1\n%kg}", "@a{\n}", "@a{ -- c\n}", "@a{1 [- c -]kg}", "~{5 [- c -]min}", "#pan{1 [- c -]large}",
             ">> note: serve  cold", ">> a: b  |  c", "@salt{1%tsp.}", "@milk{1%fl. oz.}",
+            "@a{4294967295.6%cup}", "@b{4294967295.5%oz} @c{2147483647.8%lb}", "@d{4294967295.9 cups}", "== \\@home ==", "= [- c -] Dough =", "=  \\= x", "> Tips\n \\#1 rest the dough", "> a\n [- c -] b",
+            "---\n\ntitle: Pancakes\nservings: 4\n---\nMix é", "---\r\n\r\nauthor: Ana\r\n---\r\nx", "= A\n\nx @a{}\n\n= B\n\ny @b{}\n\n= C\n\n@&(=3)z{} @&(=~0)w{}", "= A\n\nx\n\n==\n\n= C\n\n@&(=2)z{}",
+            ">> [mode]: components\n@flour{1%kg}\n>> [mode]: all\n@&flour{2%kg} @flour{3%g}", ">> [mode]: components\n@flour{1%kg}\n>> [mode]: steps\n@flour{2%kg}", "@flour|[- todo -]{200%g}", "#frying pan| [- todo -] {}", "@x|\n{1%kg}",
+            "@water{0-250%ml}", "@oil{=0-100%ml} ~{0-5%min}", "@x{0%kg} @y{0-0%g}",
             ">> serves: 4", ">> yield: 6|12", "@x{.05%g}", "@x{.05-.1%g}", "@x{.5 g}", "[---]", "[- x --] y", "[- a - b -]",
         ]).prop_map(|s| s.to_string()),
         // many old-style entries (the deprecation warning gets one label per entry)
